@@ -9,8 +9,9 @@ number" mean are characterised for ALL inputs instead of being compared on sampl
 
 * `normalizeForComparison` (regexp `\d+` → "#"), the digit runs `parsePageNumber` reads, the
   64-bit wrap-around of that parse, `sort.Ints`, `isPageNumberPattern`, `containsPageNumberPattern`;
-* the filter side: exactly which fragments `FilterFragments` removes, and that nothing else
-  changes (multiplicity and order of the kept fragments);
+* the filter side: exactly which fragments `FilterFragments` removes (on a character-level page:
+  the glyphs of the assembled lines that match a region, no longer every glyph of the band), and
+  that nothing else changes (multiplicity and order of the kept fragments);
 * the detection side: exactly which normalised texts become regions and exactly which pages a
   region lists;
 * line assembly on character-level pages: the assembled lines partition the page's fragments
@@ -151,18 +152,41 @@ theorem containsPageNumberPattern_iff (group : List Cand) :
 
 /-! ## The filter side, exactly -/
 
-/-- what `FilterFragments` removes from a page: some region of the result lists this page, the
-fragment lies in the band of that region's kind, and (word-level page) the region matches its text -/
+/-- the judged fragment `l` (a fragment of a word-level page, an assembled line of a character-level
+page), measured against the bands `b`, is a header or footer of page `idx`: some region of the result
+lists the page, `l` lies in the band of that region's kind, and the region matches `l`'s text -/
+def Hit (res : Result) (idx : Int) (b : Bands) (l : Frag) : Prop :=
+  ∃ k r, r ∈ res.regions k ∧ idx ∈ r.pages ∧ inRegion k b l = true ∧ regionMatches r l.text = true
+
+/-- what `FilterFragments` removes from a page. Word-level page: the fragment itself is a `Hit`
+(bands of the page's fragments). Character-level page: the fragment is a glyph of a line group of the
+page (`charLines`, the groups `lines_partition_page` speaks about) whose assembled line is a `Hit`
+(bands of the page's assembled lines, as in detection) — the position of the glyph alone no longer
+decides (F8 repaired). -/
 def Removed (res : Result) (idx : Int) (fs : List Frag) (ph : Rat) (f : Frag) : Prop :=
-  ∃ k r, r ∈ res.regions k ∧ idx ∈ r.pages ∧ inRegion k (bands res.cfg fs ph) f = true ∧
-    (isCharacterLevel fs = true ∨ regionMatches r f.text = true)
+  (isCharacterLevel fs = false ∧ Hit res idx (bands res.cfg fs ph) f) ∨
+  (isCharacterLevel fs = true ∧ ∃ g ∈ charLines fs, f ∈ g ∧ ∃ l, assembleLine g = some l ∧
+    Hit res idx (bands res.cfg (assembleFragmentsIntoLines fs) ph) l)
+
+theorem isRemoved_iff (res : Result) (idx : Int) (fs : List Frag) (ph : Rat) (f : Frag) :
+    isRemoved res idx fs ph f = true ↔ Removed res idx fs ph f := by
+  unfold Removed Hit
+  cases hcl : isCharacterLevel fs with
+  | false =>
+    rw [isRemoved_wordLevel hcl, isInHeaderFooter_eq_true]
+    simp
+  | true =>
+    rw [isRemoved_charLevel_eq_true hcl]
+    simp only [isInHeaderFooter_eq_true]
+    simp
 
 /-- **removed_iff.** For every detection result, page index, fragment list and height: a fragment
-of the page is missing from the filtered page exactly if it is `Removed`. -/
+of the page is missing from the filtered page exactly if it is `Removed` — on a character-level page:
+exactly if the assembled line it belongs to matches a region covering the page. -/
 theorem removed_iff (res : Result) (idx : Int) (fs : List Frag) (ph : Rat) (f : Frag) (hf : f ∈ fs) :
     f ∉ filterFragments res idx fs ph ↔ Removed res idx fs ph f := by
-  rw [mem_filterFragments, Removed, ← isInHeaderFooter_eq_true]
-  cases isInHeaderFooter res idx (bands res.cfg fs ph) (isCharacterLevel fs) f <;> simp [hf]
+  rw [mem_filterFragments, ← isRemoved_iff]
+  cases isRemoved res idx fs ph f <;> simp [hf]
 
 example : let p := exPage 1 [66, 111, 100, 121] 2
     ({ text := [50], x := 300, y := 30, w := 7, h := 12, fs := 12 } : Frag) ∈ p.frags := by decide +kernel
@@ -174,18 +198,25 @@ theorem kept_exactly (res : Result) (idx : Int) (fs : List Frag) (ph : Rat) :
     ∃ gone : Frag → Bool, (∀ f, gone f = true ↔ Removed res idx fs ph f) ∧
       filterFragments res idx fs ph = fs.filter (fun f => !gone f) ∧
       ∀ f, (filterFragments res idx fs ph).count f = if gone f then 0 else fs.count f := by
-  refine ⟨isInHeaderFooter res idx (bands res.cfg fs ph) (isCharacterLevel fs), ?_, rfl, ?_⟩
-  · intro f; rw [Removed, ← isInHeaderFooter_eq_true]
-  · intro f
-    unfold filterFragments
-    cases hg : isInHeaderFooter res idx (bands res.cfg fs ph) (isCharacterLevel fs) f with
-    | false => rw [List.count_filter (by simp [hg])]; simp
-    | true =>
-      simp only [if_true]
-      apply List.count_eq_zero.mpr
-      intro hmem
-      have := (List.mem_filter.mp hmem).2
-      simp [hg] at this
+  refine ⟨isRemoved res idx fs ph, isRemoved_iff res idx fs ph, filterFragments_eq res idx fs ph, ?_⟩
+  intro f
+  rw [filterFragments_eq]
+  cases hg : isRemoved res idx fs ph f with
+  | false => rw [List.count_filter (by simp [hg])]; simp
+  | true =>
+    simp only [if_true]
+    apply List.count_eq_zero.mpr
+    intro hmem
+    have := (List.mem_filter.mp hmem).2
+    simp [hg] at this
+
+/-- the unique marginal line of the character-level witness is not `Removed`, the running line is -/
+example : let p := clPage 1 true
+    ¬ Removed (detect defaultConfig clDoc) 1 p.frags 792 { text := [88], x := 72, y := 740, w := 6, h := 12, fs := 12 } ∧
+    Removed (detect defaultConfig clDoc) 1 p.frags 792 { text := [65], x := 72, y := 760, w := 6, h := 12, fs := 12 } := by
+  constructor
+  · rw [← isRemoved_iff]; decide +kernel
+  · rw [← isRemoved_iff]; decide +kernel
 
 /-- the relative order of any two kept fragments is their order on the page: the filtered page is
 a sublist, and a sublist of it is a sublist of the page -/
